@@ -215,6 +215,17 @@ def main():
         for p in au["problems"]:
             broken.append("audit: " + p)
     my_thms = {t: a for t, a in au["theorems"].items() if re.search(rf"\b{prop}_", t) or t.startswith(f"SaoVerif.{prop}.")}
+    rechecked = None
+    if not fails and tier == "thorough" and os.path.exists(os.path.join(LEAN, f"SaoVerif/Properties/{prop}.lean")):
+        # independent re-check of the compiled property module (and its imports) by leanchecker
+        stamp = os.path.join(ctx.dir, f"leanchecker-{prop}.txt")
+        if not os.path.exists(stamp):
+            rc, out = sh(["lake", "env", "leanchecker", f"SaoVerif.Properties.{prop}"], cwd=LEAN, timeout=1800)
+            open(stamp, "w").write(f"{rc}\n{out[-2000:]}")
+        txt = open(stamp).read()
+        rechecked = txt.split("\n", 1)[0] == "0"
+        if not rechecked:
+            broken.append("audit: leanchecker rejected SaoVerif.Properties." + prop + ": " + txt[-400:])
     if not fails and not my_thms:
         broken.append(f"audit: no theorem named {prop}_* was checked (lean/SaoVerif/Properties/{prop}.lean missing or not imported)")
     # runs
@@ -374,7 +385,7 @@ def main():
             "trusted_base": ["Lean 4.33.0 kernel", "axioms: propext, Classical.choice, Quot.sound only (audited per theorem below)",
                              "harness/cmd/drive (Mode K atomicity emulation, state dump = abstraction function)",
                              "Lean compiler for saomodel (correspondence/monitors only)"],
-            "theorems": my_thms,
+            "theorems": my_thms, "leanchecker_replayed_module": rechecked,
             "correspondence": {"runs": runs, "steps": steps_total, "compared_steps": compared, "footprint_ops": sorted(ops), "footprint_fields": sorted(fields),
                                "mismatches_in_footprint": len(mism), "op_histogram": opcount, "op_result_histogram": rescount, "error_kinds_hit": dict(sorted(errkinds.items()))},
             "traces_validated_against_impl": compared,
